@@ -46,6 +46,11 @@ CLAIMED = {
    note="Trusted: live-qubit accounting of the generator (documented rules), one-sided link stub, trace memory. min_fidelity_all_at_end variants are not generated. Four recorded findings are masked in half of the runs (known_findings.json).",
    technique="deterministic simulation: scheduler-owned flush placement, link answer times/ids + agreement oracle after every flush",
    ref="§5 C09"),
+ "C06": dict(
+   text="Seeded twin simulation: the same generated host program (1-6 segments of straight-line and looped quantum code with template rotation numerators) is run as system A (compile -> instantiate(values) -> commit_subroutine for the drawn segments, ordinary flushes for the others) and as system B (concrete values, ordinary flushes only) under one choice record; after every segment the controller gate traces, arrays, shared memory, every host-visible handle and the connection bookkeeping (arrays / registers pending return, used M registers) must be equal.",
+   note="Trusted: system B as the reference (judged itself by C05), trace memories sharing one outcome script, generator. Template operands only in rotation numerators. NV runs use straight-line code; runs where both systems fault identically are discarded (C09's business).",
+   technique="deterministic simulation: twin systems under one seeded choice record (placement of compile/commit vs flush, values, outcomes)",
+   ref="§5 C06"),
 }
 
 PENDING = {p: 'check not built yet in this round (simulation target per DESIGN §5; will be claimed when its rig exists)' for p in ['C05','C06','C08','C09','C10','C11','C12','C13','C14','C18','C20']}
